@@ -122,7 +122,48 @@ def coverage_record(spec, hists):
         if o["op"] == "call":
             conts[o.get("cont", "nd")] = conts.get(o.get("cont", "nd"), 0) + 1
     fams_used = sorted({o.get("fam") for o in ops if o.get("fam")})
-    return {"sig": sig, "nontrivial": bool(max_live >= 2 and adj_same_module >= 1), "max_live": max_live, "families": fams_used,
+    # "this rare condition was hit" probes (DESIGN.md §3.4); outcomes come from the first history of the run
+    probes = {"call_after_failed_constructor_of_same_class": 0, "call_after_sibling_used_other_parameters": 0,
+              "call_on_refilled_same_ndarray": 0, "call_after_fault_in_same_object": 0, "call_after_drop_of_a_sibling": 0}
+    first_log = hists[0][0]["log"] if hists else []
+    failed_cls = set()
+    cls_of = {o["obj"]: o["cls"] for o in ops if o["op"] == "new"}
+    last_pi_used = {}
+    seen_buf = set()
+    dropped_fams = set()
+    faulted_objs = set()
+    for hist, faults in hists[1:]:
+        for rec in hist["log"]:
+            if rec["fired"] and ops[rec["i"]].get("obj"):
+                faulted_objs.add((id(hist), ops[rec["i"]]["obj"]))
+    for i, o in enumerate(ops):
+        out = first_log[i]["out"] if i < len(first_log) else ("?",)
+        if o["op"] == "new" and out[0] == "exc":
+            failed_cls.add(o["cls"])
+        if o["op"] == "drop" and o.get("obj") in fam_of:
+            dropped_fams.add(fam_of[o["obj"]])
+        if o["op"] == "call":
+            oid = o["obj"]
+            if cls_of.get(oid) in failed_cls:
+                probes["call_after_failed_constructor_of_same_class"] += 1
+            f = fam_of.get(oid)
+            if f in last_pi_used and last_pi_used[f][0] != oid and last_pi_used[f][1] != pi_of.get(oid):
+                probes["call_after_sibling_used_other_parameters"] += 1
+            last_pi_used[f] = (oid, pi_of.get(oid))
+            if o["buf"] in seen_buf:
+                probes["call_on_refilled_same_ndarray"] += 1
+            seen_buf.add(o["buf"])
+            if f in dropped_fams:
+                probes["call_after_drop_of_a_sibling"] += 1
+    for hist, faults in hists[1:]:
+        hit = set()
+        for rec in hist["log"]:
+            o = ops[rec["i"]]
+            if rec["fired"] and o.get("obj"):
+                hit.add(o["obj"])
+            elif o["op"] == "call" and o["obj"] in hit:
+                probes["call_after_fault_in_same_object"] += 1
+    return {"sig": sig, "nontrivial": bool(max_live >= 2 and adj_same_module >= 1), "max_live": max_live, "families": fams_used, "probes": probes,
             "fam_pairs": sorted(fam_pairs), "pset_pairs": sorted(pset_pairs), "op_kinds": kinds, "fired": fired,
             "fired_where": fired_where, "classes": classes, "containers": conts, "n_ops": len(ops),
             "run_faults": sorted(spec.get("run", {}).keys())}
